@@ -11,6 +11,8 @@ package main
 
 import (
 	"bufio"
+	"bytes"
+	"context"
 	"encoding/json"
 	"flag"
 	"fmt"
@@ -18,6 +20,7 @@ import (
 	"go/parser"
 	"go/token"
 	"os"
+	"os/exec"
 	"path/filepath"
 	"reflect"
 	"regexp"
@@ -26,6 +29,7 @@ import (
 	"strings"
 
 	"github.com/nuetzliches/hookaido/internal/config"
+	"github.com/nuetzliches/hookaido/internal/mcp"
 )
 
 // canonical, address-free rendering of any value (maps sorted, pointers followed, funcs by nil-ness)
@@ -381,6 +385,7 @@ func cmdCfgFmt(args []string) error {
 	outPath := fs.String("out", "-", "output")
 	file := fs.String("file", "", "only run the round-trip oracle on this one file (replay)")
 	perFamily := fs.Int("perfamily", 30, "spellings per directive family in the pair sweep")
+	cli := fs.String("cli", "", "path of the real hookaido binary: `config fmt` is also run through it and through the MCP tool")
 	fs.Parse(args)
 	if *file != "" {
 		b, err := os.ReadFile(*file)
@@ -429,6 +434,63 @@ func cmdCfgFmt(args []string) error {
 			}
 		}
 		emit(lexRecord(src))
+	}
+	// the front ends of the formatter: the `hookaido config fmt` command of the real binary and the MCP tool
+	// config_fmt_preview must print exactly what the formatter produces for the file they are given, and refuse (printing
+	// nothing) what does not parse
+	if *cli != "" {
+		fdir, err := scratchDir()
+		if err != nil {
+			return err
+		}
+		defer os.RemoveAll(fdir)
+		fpath := filepath.Join(fdir, "Hookaidofile")
+		texts := []string{"", "/broken {\n", "# only a comment\n"}
+		for i, src := range corpus {
+			if i%*shards == *shard && len(texts) < 90 {
+				texts = append(texts, src, "# head\r\n"+src, strings.ReplaceAll(src, "\n", "\r\n"))
+			}
+		}
+		for _, src := range texts {
+			if err := os.WriteFile(fpath, []byte(src), 0o600); err != nil {
+				return err
+			}
+			want, wantOK := "", false
+			if cfg, err := config.Parse([]byte(src)); err == nil {
+				if f, err := config.Format(cfg); err == nil {
+					want, wantOK = string(f), true
+				}
+			}
+			cmd := exec.Command(*cli, "config", "fmt", "-config", fpath)
+			var so, se bytes.Buffer
+			cmd.Stdout, cmd.Stderr = &so, &se
+			runErr := cmd.Run()
+			code := 0
+			if ee, ok := runErr.(*exec.ExitError); ok {
+				code = ee.ExitCode()
+			} else if runErr != nil {
+				code = -1
+			}
+			after, _ := os.ReadFile(fpath)
+			// the MCP tool on the same file
+			var ob, ab bytes.Buffer
+			srv := mcp.NewServer(bytes.NewReader(frame(map[string]interface{}{"jsonrpc": "2.0", "id": 1, "method": "tools/call",
+				"params": map[string]interface{}{"name": "config_fmt_preview", "arguments": map[string]interface{}{}}})), &ob, fpath, filepath.Join(fdir, "none.db"), mcp.WithAuditWriter(&ab))
+			_ = srv.Serve(context.Background())
+			mcpOut, mcpErr := "", true
+			for _, fr := range readFrames(ob.Bytes()) {
+				if res, ok := fr["result"].(map[string]interface{}); ok {
+					if b, _ := res["isError"].(bool); !b {
+						if sc, ok := res["structuredContent"].(map[string]interface{}); ok {
+							mcpOut, _ = sc["formatted"].(string)
+							mcpErr = false
+						}
+					}
+				}
+			}
+			emit(map[string]interface{}{"k": "fmtfront", "src": src, "parses": wantOK, "cliExit": code, "cliSame": so.String() == want, "cliPrinted": so.Len(), "fileUntouched": string(after) == src,
+				"mcpRefused": mcpErr, "mcpSame": mcpOut == want})
+		}
 	}
 	// mutations
 	pools := unitPools{}
